@@ -7,6 +7,7 @@ import hashlib
 import numpy as np
 
 LEVEL = "exploration"
+TECHNIQUE = 'runtime monitoring: exhaustive comparison of the 4096 vocabulary positions with the published layout written as block formulas, codec inverse on every id and random sequences, legacy vocabularies for every mode x size built in ascending/descending/random order, corner-first prefix property for all pairs n<m<=50'
 RULE = ("exhaustive over the finite parts: all 4096 positions of VOCAB_LIST against the published layout written as block formulas "
         "(and the SHA-256 of the list at the pinned commit), VOCAB_TOKEN_TO_INDEX as its inverse, all ids 0..4095 through decode/"
         "encode, unknown ids {4096, 10^6, -1, -4096, -4097} and unknown tokens must raise TokenError; random token sequences (list "
